@@ -36,6 +36,71 @@ fn repetition_docs(n: usize) -> Vec<generic::Doc> {
     v
 }
 
+/// C08, "go on after an error" (see the cnf harness): the parser is asked for the next line again
+/// after every syntax error; every further syntax error must lie inside the input.
+fn go_on_after_error(docs: &[generic::Doc], report: &mut Report) {
+    use flussab_btor2::{Config, InnerParseError, ParseError, Parser};
+    let total = mc_core::par::par_fold(
+        docs.len(),
+        mc_core::threads(),
+        Report::new,
+        |acc, i| {
+            let input: &[u8] = &docs[i].bytes;
+            let r = mc_core::subject::catch(|| {
+                let mut errs: Vec<ParseError> = Vec::new();
+                match Parser::from_read(input, Config::default()) {
+                    Err(e) => errs.push(e),
+                    Ok(mut p) => {
+                        for _ in 0..64 {
+                            match p.next_line() {
+                                Ok(Some(_)) => {}
+                                Ok(None) => break,
+                                Err(e) => {
+                                    errs.push(e);
+                                    if errs.len() >= 5 {
+                                        break;
+                                    }
+                                }
+                            }
+                        }
+                    }
+                }
+                errs
+            });
+            acc.states += 1;
+            let replay = || mc_core::json!({"property": "C08", "go_on": "btor2", "input_hex": mc_core::hex(input)});
+            match r {
+                Err((m, l)) => {
+                    acc.evaluations += 1;
+                    acc.violation_with("btor2/location/go-on/panic", input.len() as u64, || (format!("btor2 on {:?}: asking again after a syntax error panicked: {m} @ {l}", mc_core::show(input)), replay()));
+                }
+                Ok(errs) => {
+                    if errs.is_empty() {
+                        return;
+                    }
+                    acc.evaluations += 1;
+                    acc.transitions += errs.len() as u64;
+                    if errs.len() > 1 {
+                        acc.nontrivial += 1;
+                    }
+                    let breaks: Vec<usize> = input.iter().enumerate().filter(|(_, b)| **b == b'\n').map(|(i, _)| i).collect();
+                    for (k, e) in errs.into_iter().enumerate().skip(1) {
+                        if let InnerParseError::SyntaxError(se) = *e {
+                            if let Err(why) = generic::location_in_range(input, &breaks, se.location.line, se.location.column) {
+                                acc.violation_with("btor2/location/go-on/out-of-range", input.len() as u64, || (format!("btor2 on {:?}: syntax error #{} after going on ({}) at {}:{}: {why}", mc_core::show(input), k + 1, se.msg, se.location.line, se.location.column), replay()));
+                                return;
+                            }
+                        }
+                    }
+                }
+            }
+        },
+        |a, b| a.merge(b),
+    );
+    report.merge(total);
+    report.completed.push(format!("btor2: go on after an error - the parser is asked again (up to 64 calls / 5 errors) after every syntax error on {} documents; every further syntax error must lie inside the input", docs.len()));
+}
+
 fn main() {
     mc_core::subject::install_quiet_panic_hook();
     let cli = parse_cli();
@@ -48,6 +113,15 @@ fn main() {
         let text = std::fs::read_to_string(cli.file.as_ref().expect("replay needs a file")).unwrap();
         let v: Value = mc_core::serde_json::from_str(&text).unwrap();
         let v = if v.get("replay").is_some() { v["replay"].clone() } else { v };
+        if v["go_on"].as_str().is_some() {
+            let mut r = Report::new();
+            let input = mc_core::unhex(v["input_hex"].as_str().unwrap());
+            go_on_after_error(&[generic::Doc::new("replay", input)], &mut r);
+            let text: String = r.violations.values().map(|x| format!("  {}\n", x.what)).collect();
+            println!("go on after an error (btor2):\n{text}");
+            println!("{}", if r.violation_count > 0 { "REPLAY: property violated" } else { "REPLAY: property holds" });
+            std::process::exit(if r.violation_count > 0 { 1 } else { 0 });
+        }
         let subject = subjects::by_name(v["subject"].as_str().unwrap_or("btor2"));
         let (violated, text) = match v["property"].as_str().unwrap_or("") {
             "C03" => c03::replay(&v),
@@ -159,6 +233,27 @@ fn main() {
                     }
                 }
                 generic::c08(&subs, &docs, &pairs, tier, &budget, &mut report);
+                {
+                    let mut more = docs.clone();
+                    for t in [&b"1 sort bitvec 1
+2 input X
+3 input 1
+4 Y 1
+5 input 1 ; c
+6 and 1 Z 3
+"[..], b"X
+
+Y
+; c
+Z", b"1 sort bitvec 1
+2 input 1 a b
+3 input 1
+4 input
+"] {
+                        more.push(generic::Doc::new("multi-error", t.to_vec()));
+                    }
+                    go_on_after_error(&more, &mut report);
+                }
                 report.completed.push(format!("{kind}: in-range clause on {} documents x {} subjects x schedules; exact-location clause on {} (corruption, subject) pairs", docs.len(), subs.len(), pairs.len()));
                 sample_docs(&mut report, kind, &inp.corpus);
             }
